@@ -170,11 +170,12 @@ def addDebugNodeAttr {ρ : Type} (n : Nat) (name : String) (v : Val) : Prog ρ U
 
 def locString (l : Loc) : String := "line " ++ toString (l.row + 1) ++ " column " ++ toString (l.col + 1)
 
-/-- the full-match node of the running match (`expect("missing full capture")`) -/
+/-- the full-match node of the running match; a match that lost it is an `UndefinedCapture` error (repaired:
+    was `expect("missing full capture")`) -/
 def fullMatchNode {ρ : Type} (env : Env) : Prog ρ Nat :=
   match env.mat.nodes fullMatchName with
   | n :: _ => pure n
-  | [] => panicAt "missing full capture"
+  | [] => throwK .undefinedCapture
 
 /-- matches of all arms at offset `i`, in arm order; stops at the first empty match -/
 def scanCollect (o : Oracle) (subject : String) (i : Nat) :
@@ -255,7 +256,7 @@ def evalExpr (cfg : Cfg) (fuel : Nat) (env : Env) (e : Expr) : SM Val :=
     pure (.set (Val.setOfList out))
   | .capture name q _ _ _ =>
     match q with
-    | .zero => panicAt "from_nodes:unreachable"
+    | .zero => throwK .undefinedCapture   -- not resolved by the checker (shorthand bodies); repaired: was unreachable!()
     | _ =>
       match env.quants.lookup name with
       | some q' => fromNodes q' (env.mat.nodes name)
